@@ -19,6 +19,7 @@ type c14params struct {
 	Mode  string // hostile | shutdown | storm
 	Len   int
 	Conns int
+	Real  bool // connections reach the broker as transport.BaseConn over a byte-stream view of the pipe
 }
 
 func init() {
@@ -190,7 +191,7 @@ func hostileAlphabet() []hostileItem {
 	return its
 }
 
-var hookNames = []string{"Subscribe", "Unsubscribe", "Publish", "Dequeue", "Terminate", "Restore", "Setup", "Authenticate"}
+var hookNames = []string{"Subscribe", "Unsubscribe", "Publish", "Dequeue", "Terminate", "Restore", "Setup", "Authenticate", "Publish(will)"}
 
 // consumerAlphabet: the hostile peer as a misbehaving consumer of the witnesses' traffic (subscribes to the marker
 // topic, withholds or misplaces acknowledgements, unsubscribes with messages still queued, comes and goes).
@@ -225,6 +226,10 @@ func consumerAlphabet() []hostileItem {
 		{"PUBACK(unknown)", false, func(p *env.Client) { p.Send(env.Puback(4242)) }},
 		{"DISCONNECT", true, func(p *env.Client) { p.Send(packet.NewDisconnect()) }},
 		{"abrupt-close", true, func(p *env.Client) { p.Drop() }},
+		// the peer stops reading (its socket buffer is full): the broker's next write to it blocks
+		{"stop-reading", false, func(p *env.Client) { p.BEnd.Hold = true }},
+		// ... and stays silent until the read deadline derived from its keep-alive passes
+		{"keepalive-expiry", true, func(p *env.Client) { p.BEnd.ExpireReadDeadline() }},
 	}
 }
 
@@ -236,6 +241,7 @@ func hostile(x *explore.X, pr c14params) {
 		}
 	})
 	w.Eng.ReadLimit = 70000
+	w.Real = pr.Real
 	w.Rec.FailConn = "hostile" // injected backend failures strike only calls made on behalf of the hostile peer
 	w1 := w.NewClient("w1")
 	w1.Connect(true, nil)
@@ -252,9 +258,13 @@ func hostile(x *explore.X, pr c14params) {
 	var names []string
 	nmark := 0
 	connected := false
+	limit := func(n int64) {
+		h.BEnd.ReadLimit = n
+		h.Conn.SetReadLimit(n)
+	}
 	dial := func(connect bool) {
 		h = w.NewClient("hostile")
-		h.BEnd.ReadLimit = 2000 // set by a smaller engine read limit would do the same; 64 KiB items go through a second dial below
+		limit(2000) // set by a smaller engine read limit would do the same; 64 KiB items go through a second dial below
 		connected = false
 		if connect {
 			h.Connect(false, &packet.Message{Topic: "hostile/will", Payload: []byte("hwill"), QOS: 1})
@@ -265,7 +275,7 @@ func hostile(x *explore.X, pr c14params) {
 	dial(precon)
 	w.Run(w1, w2, h)
 	if precon {
-		h.BEnd.ReadLimit = 70000
+		limit(70000)
 	}
 	for i := 0; i < pr.Len; i++ {
 		// optionally make one backend hook fail for the hostile's next action
@@ -280,7 +290,7 @@ func hostile(x *explore.X, pr c14params) {
 			it := alpha[k]
 			name = it.name
 			if strings.HasPrefix(it.name, "raw:limit+1") {
-				h.BEnd.ReadLimit = 2000
+				limit(2000)
 			}
 			it.send(h)
 		case k == len(alpha):
@@ -290,7 +300,7 @@ func hostile(x *explore.X, pr c14params) {
 				w.Run(w1, w2, h)
 			}
 			dial(true)
-			h.BEnd.ReadLimit = 70000
+			limit(70000)
 		default:
 			hook := hookNames[k-len(alpha)-1]
 			name = "backend-fails:" + hook
@@ -308,6 +318,10 @@ func hostile(x *explore.X, pr c14params) {
 				h.Send(env.Publish(0, "hq", "hdq", 0, false, false))
 			case "Terminate":
 				h.Drop()
+			case "Publish(will)":
+				// the publication of the will at the end of the connection fails: the connection must still be terminated
+				w.Rec.FailHook = "Publish"
+				h.Drop()
 			case "Restore", "Setup", "Authenticate":
 				if !h.Closed() {
 					h.Drop()
@@ -320,6 +334,20 @@ func hostile(x *explore.X, pr c14params) {
 		names = append(names, name)
 		w.Run(w1, w2, h)
 		w.Rec.FailHook, w.Rec.FailAt = "", 0
+		if pr.Real && h.BEnd.Hold {
+			// over the real BaseConn: somebody waits in BaseConn.Close for the send mutex that the blocked write holds
+			// (identified by the caller of Close); the connection cannot end until the peer itself goes away
+			seen := map[string]bool{}
+			for _, caller := range env.ClosersBehindBlockedWrite() {
+				if !seen[caller] {
+					seen[caller] = true
+					x.Failf("no-stall", "close-waits-for-blocked-write:caller="+caller, "after the hostile peer did: %s - %s waits inside transport.BaseConn.Close for the send mutex, which a Send blocked in the carrier's Write holds (the peer does not read); the connection's goroutines stay blocked for as long as the peer keeps the connection open; blocked: %v", strings.Join(names, " ; "), caller, vrt.Blocked())
+				}
+			}
+			if len(seen) > 0 {
+				return
+			}
+		}
 		connected = !h.Closed()
 		sig := name
 		if len(names) > 1 {
@@ -463,8 +491,12 @@ func runC14(r *report.Report) {
 		cl = 7
 	}
 	st = explore.Explore(explore.Config{Harness: "C14.run", Params: mk(c14params{Mode: "consumer", Len: cl}), Bound: 0, Workers: report.Workers(), Deadline: r.Deadline()})
-	r.AddExploration("hostile-consumer", "history", fmt.Sprintf("all sequences of %d events of a misbehaving consumer (subscribes to the witnesses' topic with window 1, withholds / misplaces acknowledgements, unsubscribes with messages queued, reconnects unclean), delay bound 0", cl), st,
+	r.AddExploration("hostile-consumer", "history", fmt.Sprintf("all sequences of %d events of a misbehaving consumer (subscribes to the witnesses' topic with window 1, withholds / misplaces acknowledgements, unsubscribes with messages queued, stops reading, lets its keep-alive expire, reconnects unclean), delay bound 0", cl), st,
 		"as above", "hostile-sequence")
+	st = explore.Explore(explore.Config{Harness: "C14.run", Params: mk(c14params{Mode: "hostile", Len: n, Real: true}), Bound: 0, Workers: report.Workers(), Deadline: r.Deadline()})
+	r.AddExploration("hostile-sequences-over-baseconn", "history", fmt.Sprintf("the same sequences of %d hostile events with every connection a transport.BaseConn over a byte-stream view of the pipe (the real stream decoder sees the hostile bytes)", n), st, "as above", "hostile-sequence")
+	st = explore.Explore(explore.Config{Harness: "C14.run", Params: mk(c14params{Mode: "consumer", Len: cl, Real: true}), Bound: 0, Workers: report.Workers(), Deadline: r.Deadline()})
+	r.AddExploration("hostile-consumer-over-baseconn", "history", fmt.Sprintf("all sequences of %d misbehaving-consumer events (incl. stop-reading and keep-alive expiry) over transport.BaseConn: blocked writes, flush timer and send mutex are the real ones", cl), st, "as above, plus: nobody waits inside BaseConn.Close behind a blocked write", "hostile-sequence")
 	st = explore.Explore(explore.Config{Harness: "C14.run", Params: mk(c14params{Mode: "hostile", Len: 1}), Bound: 1, Workers: report.Workers(), Deadline: r.Deadline()})
 	r.AddExploration("hostile-single-reordered", "history", "every single hostile event with one scheduling deviation placed everywhere", st, "as above", "hostile-sequence")
 	b := 2
